@@ -35,7 +35,7 @@ THEMES["cover"] = ["<b>", "<i>", "<a>", "<nobr>", "<p>", "<div>", "<applet>", "<
 THEMES["cover_afe"] = ["<b>", "<i>", "<a>", "<nobr>", "<p>", "<div>", "<applet>", "<object>", "<table>", "<td>", "</b>", "</p>", "</applet>",
                        "</object>", "x", "</a>", "</div>", "<b id=1>"]
 THEMES["frameset"] = ["<frameset>", "</frameset>", "</html>", "<noframes>", "</noframes>", "x", " ", "<frame>", "<html>", "<body>", "</body>",
-                      "<!--c-->", "<head>"]
+                      "<!--c-->", "<head>", "&#32;", "&", "<"]
 PUMP_NAMES = """a b i nobr font p div span li dd dt ul ol dl h1 form button applet object marquee table caption colgroup tbody tr td th
 select option optgroup ruby rt rp rb rtc pre listing blockquote center address fieldset details summary menu nav section article
 aside header footer main figure dialog svg math mi mtext g desc foreignobject annotation-xml x-y em strong small code label
